@@ -5,8 +5,10 @@ import (
 	"context"
 	"fmt"
 	"os"
+	"sort"
 	"strings"
 	"testing"
+	"time"
 
 	"github.com/gebn/bmc"
 	"github.com/gebn/bmc/pkg/ipmi"
@@ -385,6 +387,102 @@ func TestMethodPairs(t *testing.T) {
 	ev.Label("method-pairs-complete")
 }
 
+// TestSDRRetrievalAfterAbandonedWalk: the repository changes while it is being
+// walked (a record is deleted, another added, the rest renumbered; the
+// timestamps move), so the library abandons the walk and starts again. What it
+// finally returns must be what a fresh session returns for the final
+// repository: nothing decoded during the abandoned walk survives.
+func TestSDRRetrievalAfterAbandonedWalk(t *testing.T) {
+	ev.Check(t, "TestSDRRetrievalAfterAbandonedWalk", ev.PickN(10, 400), func(t *rapid.T) {
+		c := hx.Creds{User: "admin", Password: []byte("pw"), Priv: 4, Suite: rapid.SampledFrom(hx.Suites9()).Draw(t, "suite"), Seed: rapid.Uint64().Draw(t, "seed")}
+		n := rapid.IntRange(2, 6).Draw(t, "records")
+		mk := func(id uint16, name string) simbmc.Record {
+			f := ref.FSR{Number: byte(id), M: int(id%50) + 1, ID: ref.IDString{Enc: ref.Enc8Bit, Codes: []byte(name)}}
+			return simbmc.Record{ID: id, Bytes: f.Record(id)}
+		}
+		var before, after []simbmc.Record
+		for i := 0; i < n; i++ {
+			before = append(before, mk(uint16(0x10*(i+1)), fmt.Sprintf("sensor %d", i)))
+		}
+		// the final repository: one record gone, the later ones renumbered, one new
+		gone := rapid.IntRange(0, n-1).Draw(t, "deleted")
+		renumber := rapid.Bool().Draw(t, "renumber")
+		for i := 0; i < n; i++ {
+			if i == gone {
+				continue
+			}
+			id := uint16(0x10 * (i + 1))
+			if renumber && i > gone {
+				id = uint16(0x10*i) + 1
+			}
+			after = append(after, mk(id, fmt.Sprintf("sensor %d", i)))
+		}
+		after = append(after, mk(0x7000, "new sensor"))
+		at := rapid.IntRange(2, 2*n).Draw(t, "modifiedBeforeGetSDR")
+		run := func(modify bool) (string, error) {
+			w := hx.NewWorldFor(c, true)
+			sess, err := w.T.NewV2Session(context.Background(), c.Opts())
+			if err != nil {
+				return "", fmt.Errorf("harness: %v", err)
+			}
+			rp := &w.BMC.Data.Repo
+			rp.AddTS, rp.EraseTS = 1000, 900
+			if modify {
+				rp.Records = append([]simbmc.Record(nil), before...)
+				rp.BeforeGetSDR = func(r *simbmc.Repo, k int) {
+					if k == at {
+						r.Records = append([]simbmc.Record(nil), after...)
+						r.AddTS, r.EraseTS = r.AddTS+5, r.EraseTS+5
+						r.CancelReservation()
+					}
+				}
+			} else {
+				rp.Records = append([]simbmc.Record(nil), after...)
+				rp.AddTS, rp.EraseTS = 1005, 905
+			}
+			ctx, cancel := context.WithTimeout(context.Background(), 20*time.Second)
+			defer cancel()
+			repo, err := bmc.RetrieveSDRRepository(ctx, sess)
+			if err != nil && ctx.Err() != nil {
+				// the retrieval waits in real time between walks; running out of
+				// the time budget on a busy machine is not a verdict
+				return "", errBudget
+			}
+			if err != nil {
+				return "", fmt.Errorf("retrieval failed: %v", err)
+			}
+			var ids []string
+			for id, f := range repo {
+				ids = append(ids, fmt.Sprintf("%#04x:%q:M=%d", uint16(id), f.Identity, f.M))
+			}
+			sort.Strings(ids)
+			return strings.Join(ids, " "), nil
+		}
+		used, err := run(true)
+		if err == errBudget {
+			t.Skip("time budget exhausted")
+		}
+		if err != nil {
+			t.Fatalf("%v", err)
+		}
+		fresh, err := run(false)
+		if err == errBudget {
+			t.Skip("time budget exhausted")
+		}
+		if err != nil {
+			t.Fatalf("%v", err)
+		}
+		ev.Eval()
+		if used != fresh {
+			t.Fatalf("repository returned after an abandoned walk differs from a fresh retrieval of the same final repository\n after abandoned walk: %s\n fresh:                %s", used, fresh)
+		}
+		ev.Label("sdr-retrieval-after-abandoned-walk")
+		ev.NonTrivial(fmt.Sprintf("sdr|%d|%d|%v|%d", n, gone, renumber, at))
+	})
+}
+
+var errBudget = fmt.Errorf("time budget exhausted")
+
 func dumpOrNil(l interface{}, err error) string {
 	if err != nil {
 		return ""
@@ -624,6 +722,6 @@ func TestSessionPairs(t *testing.T) {
 }
 
 func TestCoverage(t *testing.T) {
-	ev.RequireLabels(t, 1, "pairs-complete", "method-pairs-complete", "command-reuse:later-reply-without-body", "session-pair:second-open-established", "session-pair:both-discover", "layer-branch-differs:GetDeviceIDRsp", "layer-branch-differs:GetSessionInfoRsp", "layer-branch-differs:GetChassisStatusRsp",
+	ev.RequireLabels(t, 1, "pairs-complete", "method-pairs-complete", "sdr-retrieval-after-abandoned-walk", "command-reuse:later-reply-without-body", "session-pair:second-open-established", "session-pair:both-discover", "layer-branch-differs:GetDeviceIDRsp", "layer-branch-differs:GetSessionInfoRsp", "layer-branch-differs:GetChassisStatusRsp",
 		"layer-branch-differs:OpenSessionRsp", "layer-branch-differs:RAKPMessage2", "layer-branch-differs:GetDCMISensorInfoRsp", "layer-branch-differs:DCMICaps", "wrapper:V1Session", "wrapper:V2Session", "wrapper:Message", "wrapper-after-rejected:V2Session")
 }
